@@ -749,6 +749,185 @@ Definition o_merge (a : sx) : sx :=
   end.
 
 (* o_sdecode: reply framing against the spec (a well-formed value is one reply of its own size) *)
+(* ---- o_loop: session-level spec oracles on the implementation's own event trace ----
+   The harness's fake backends answer every fragment by a fixed convention (a pure function of the
+   fragment and the answering node), and every key carries "c<client>r<request number>", so the
+   expected reply of every request is determined by the request alone. *)
+Definition find_sub (s sub : bytes) : bool := Cluster.contains s sub.
+
+Definition conv_value (k : bytes) : bytes := enc_bulk (bs "V(" ++ k ++ bs ")").
+
+(* what the client must receive for request args, by the convention, if no fault interferes *)
+Definition expected_reply (limit : Z) (password : bytes) (args : list bytes) : option bytes :=
+  match spec_class_of limit args with
+  | CUnknown => Some ErrUnKnownCommand
+  | CWrongArgs => Some ErrMsgReqWrongArgumentsNumber
+  | CTooLarge => Some ErrMsgReqTooLarge
+  | CServed t =>
+      let keys := tl args in
+      let key := hd [] keys in
+      if N.eqb t ReqPing then Some StatusPONG
+      else if N.eqb t ReqQuit then Some StatusOK
+      else if N.eqb t ReqAuth then
+        Some (match password with [] => ErrAuthNeedNtPassword | _ => if beqb password key then StatusOK else ErrAuthInvalidPassword end)
+      else if N.eqb t ReqMget then
+        if existsb (fun k => find_sub k (bs "err")) keys then Some ErrUnKnownMget
+        else Some ([42] ++ itoa_nat (length keys) ++ crlf ++
+                   concat (map (fun k => if find_sub k (bs "nil") then bs "$-1" ++ crlf else conv_value k) keys))
+      else if N.eqb t ReqDel then Some ([58] ++ itoa_nat (length keys) ++ crlf)
+      else if (N.eqb t ReqMset || N.eqb t ReqSet)%bool then Some StatusOK
+      else if find_sub key (bs "err") then
+        Some (bs "-ERR bad " ++ key ++ crlf)
+      else if N.eqb t ReqGet then Some (conv_value key)
+      else Some (enc_bulk (bs "R(" ++ to_lower (hd [] args) ++ bs "," ++ key ++ bs ")"))
+  end.
+
+Definition proxy_fault_errors : list bytes :=
+  [ErrUnKnownSlot; ErrUnKnownProxyPoolError; ErrUnKnownProxyPoolConnError; ErrMsgRequestTimeout; ErrMsgRspTooLarge; ErrUnKnown; ErrUnKnownMget].
+
+(* split a client's received bytes into replies with the (proved exact) reply framer *)
+Fixpoint split_replies (fuel : nat) (b : bytes) : list bytes * bytes :=
+  match fuel with
+  | O => ([], b)
+  | S f => match b with
+           | [] => ([], [])
+           | _ => match sdecode b with
+                  | SReply _ n => let '(rs, rest) := split_replies f (skipn n b) in (firstn n b :: rs, rest)
+                  | _ => ([], b)
+                  end
+           end
+  end.
+
+(* "c<cid>r<seq>" inside a key, after an optional {tag} *)
+Fixpoint take_digits (l : bytes) (acc : N) (any : bool) : option (N * bytes) :=
+  match l with
+  | d :: r => if is_digit d then take_digits r (acc * 10 + (d - 48)) true else if any then Some (acc, l) else None
+  | [] => if any then Some (acc, []) else None
+  end.
+Fixpoint drop_tag (l : bytes) : bytes :=
+  match l with
+  | 123 :: r => (fix skip (x : bytes) := match x with 125 :: y => y | _ :: y => skip y | [] => [] end) r
+  | _ => l
+  end.
+Definition key_ids (k : bytes) : option (N * N) :=
+  match drop_tag k with
+  | 99 :: r => match take_digits r 0 false with
+               | Some (cid, 114 :: r2) => match take_digits r2 0 false with Some (sq, _) => Some (cid, sq) | None => None end
+               | _ => None
+               end
+  | _ => None
+  end.
+
+Fixpoint nondecreasing_per_client (reqs : list (list bytes)) (last : list (N * N)) : bool :=
+  match reqs with
+  | [] => true
+  | a :: rest =>
+      let key := hd [] (tl a) in
+      if (find_sub key (bs "mov") || find_sub key (bs "ask"))%bool then nondecreasing_per_client rest last
+      else match key_ids key with
+           | Some (cid, sq) =>
+               match find (fun p => N.eqb (fst p) cid) last with
+               | Some (_, prev) => if sq <? prev then false
+                                   else nondecreasing_per_client rest ((cid, sq) :: filter (fun p => negb (N.eqb (fst p) cid)) last)
+               | None => nondecreasing_per_client rest ((cid, sq) :: last)
+               end
+           | None => nondecreasing_per_client rest last
+           end
+  end.
+
+Fixpoint all_requests (fuel : nat) (b : bytes) : list (list bytes) :=
+  match fuel with
+  | O => []
+  | S f => match strict_prefix b with
+           | Some (args, rest) => args :: all_requests f rest
+           | None => []
+           end
+  end.
+
+(* is the re-sent request of an ASK redirect preceded by ASKING on the target connection? *)
+Fixpoint ask_without_asking (reqs : list (list bytes)) (prev_asking : bool) : bool :=
+  match reqs with
+  | [] => false
+  | a :: rest =>
+      let key := hd [] (tl a) in
+      let is_asking := beqb (to_lower (hd [] a)) (bs "asking") in
+      if (find_sub key (bs "ask") && negb prev_asking)%bool then true else ask_without_asking rest is_asking
+  end.
+
+Fixpoint check_replies (limit : Z) (pw : bytes) (reqs : list (list bytes)) (reps : list bytes) (i : nat) : sx :=
+  match reps, reqs with
+  | [], _ => ok
+  | r :: _, [] => viol "more-replies-than-requests" [snat i; SB r]
+  | r :: reps', q :: reqs' =>
+      if (has_prefix r (bs "-MOVED") || has_prefix r (bs "-ASK"))%bool then viol "redirect-error-leaked-to-client" [snat i; SB r]
+      else
+        let good := match expected_reply limit pw q with Some e => beqb r e | None => false end in
+        if (good || Cluster.memb r proxy_fault_errors)%bool then check_replies limit pw reqs' reps' (S i)
+        else viol "reply-does-not-belong-to-the-request-at-its-position" [snat i; SB r; SL (map SB q)]
+  end.
+
+Definition last_obs (obs : list sx) : sx := last obs (SL []).
+
+Definition o_loop (a : sx) : sx :=
+  match a with
+  | SL [SL [SL [SN limit; SB pw; _; _]; _; _; SL evs]; SL obs] =>
+      (* (a) C09: never a completed head at the end of an event *)
+      if existsb (fun o => match o with
+                           | SL [SL cs; _] => existsb (fun c => match c with SL [_; SN op; _; _; SN hd] => negb (Z.eqb op 0) && negb (Z.eqb hd 0) | _ => false end) cs
+                           | _ => false end) obs
+      then viol "completed-reply-withheld-at-head-of-queue" []
+      else
+      match last_obs obs with
+      | SL [SL cs; SL ss] =>
+          (* per client: requests sent, replies received *)
+          let client_check (c : sx) : sx :=
+            match c with
+            | SL [SN cid; SN op; SN qlen; SB got; _] =>
+                let sent := concat (map (fun e => match e with SL [SN 1%Z; SN c'; SB b; _] => if Z.eqb c' cid then b else [] | _ => [] end) evs) in
+                let '(reqs, _) := spec_extract (S (length sent)) limit sent in
+                let '(reps, junk) := split_replies (S (length got)) got in
+                match junk with
+                | _ :: _ => viol "stray-bytes-after-the-last-reply" [SN cid; SB junk]
+                | [] =>
+                    match check_replies limit pw reqs reps 0 with
+                    | SN 1%Z =>
+                        (* C15 / C01 completeness at quiescence: an open, idle client has every reply *)
+                        if (negb (Z.eqb op 0) && (length reps <? length reqs)%nat
+                            && negb (existsb (fun e => match e with SL [SN 4%Z; SN c'] => Z.eqb c' cid | _ => false end) evs))%bool
+                        then viol "request-never-answered-and-connection-left-open" [SN cid; snat (length reps); snat (length reqs)]
+                        else ok
+                    | v => v
+                    end
+                end
+            | _ => bad
+            end in
+          match find (fun r => negb (sx_eqb r ok)) (map client_check cs) with
+          | Some v => v
+          | None =>
+              (* per backend connection: per-client order (C10), ASKING before an ASK re-send (C13),
+                 nothing a Redis node rejects (C12) *)
+              let server_check (sv : sx) : sx :=
+                match sv with
+                | SL [SB addr; SN k; _; _; _; SB got] =>
+                    let reqs := all_requests (S (length got)) got in
+                    if negb (Nat.eqb (length (concat (map enc_request reqs))) (length got)) then viol "backend-received-bytes-that-are-not-requests" [SB addr; SN k]
+                    else if negb (nondecreasing_per_client reqs []) then viol "requests-of-one-client-reordered-on-a-node" [SB addr; SN k]
+                    else if (negb (beqb addr (bs "10.1.0.1:7000")) && ask_without_asking reqs false)%bool then viol "ask-redirect-without-asking" [SB addr; SN k]
+                    else ok
+                | _ => bad
+                end in
+              match find (fun r => negb (sx_eqb r ok)) (map server_check ss) with
+              | Some v => v
+              | None => ok
+              end
+          end
+      | SL [SB tag] => viol "event-loop-stopped" [SB tag]
+      | SL (SB tag :: _) => viol "event-loop-stopped" [SB tag]
+      | _ => ok
+      end
+  | _ => bad
+  end.
+
 Definition entries : list (bytes * (sx -> sx)) :=
   [ (bs "hash", e_hash);
     (bs "keyslot", e_keyslot);
@@ -769,7 +948,8 @@ Definition entries : list (bytes * (sx -> sx)) :=
     (bs "cluster", e_cluster);
     (bs "cparse", e_cparse);
     (bs "o_cluster", o_cluster);
-    (bs "loop", e_loop) ].
+    (bs "loop", e_loop);
+    (bs "o_loop", o_loop) ].
 
 Definition dispatch (name : bytes) (a : sx) : sx :=
   match assoc_b name entries with
